@@ -166,7 +166,7 @@ _cf = (dict(name='mpf_ceilfloor', props=['C13', 'C04', 'C15'], source='mpf/ceilf
     enforce=['__gmpf_ceil_or_floor'], replace=['__gmpn_add_1'],
     functions={'__gmpf_ceil_or_floor': dict(
         inserts=[(r'if \(__gmpn_add_1 \(rp, up, asize, \(\(mp_limb_t\) 1L\)\)\)', r'g_cf_inc = 1; g_hd = p - u->_mp_d; g_cf_hv = *p; \g<0>')],
-        loops={0: dict(scalars=['asize', 'g_cf_hv', 'g_cf_inc', 'g_hd'], snap='long V_as = asize;', havoc_targets=['p'], havoc='{ long V_d = nondet_long (); __CPROVER_assume (0 <= V_d && V_d < (up - u->_mp_d)); p = u->_mp_d + V_d; }',
+        loops={0: dict(scalars=['asize', 'g_cf_hv', 'g_cf_inc', 'g_hd'], snap='long V_as = asize;', havoc_targets=['p'], havoc='{ long V_d = nondet_long (); __CPROVER_assume (0 <= V_d && V_d <= (up - u->_mp_d)); p = u->_mp_d + V_d; }',
                        inv='(asize == V_as && p >= u->_mp_d && p <= up && __CPROVER_same_object (p, u->_mp_d) && __CPROVER_same_object (up, u->_mp_d) && g_cf_inc == 0 && ((0 <= gj && gj < (p - u->_mp_d)) ==> u->_mp_d[gj] == 0))',
                        dec='(up - p)'),
                1: copy_loop('gk', 'incr')})},
